@@ -18,9 +18,9 @@ from vlib.common import PROVED, REFUTED, UNKNOWN
 # property -> (families of contracts/c17_makemeta.check to run, parts of its executed tables); None = all
 SELECT = {
     "C01": (None, None), "C02": (None, None), "C17": (None, None),
-    "C06": (("pre_allocate", "tables"), ("prealloc",)),                      # column requests in any order: allocation aligned with the request
+    "C06": (("pre_allocate", "tables"), ("prealloc", "empty")),                      # column requests in any order: allocation aligned with the request
     "C07": (("dtypes",), ()),                                                # null scan over ALL row groups (appended ones included)
-    "C18": (("infer_object_encoding", "find_type", "write", "make_metadata[labels=text,index=list]", "make_metadata[defaults]", "tables"), ("infer",)),
+    "C18": (("infer_object_encoding", "find_type", "write", "make_metadata[labels=text,index=list]", "make_metadata[defaults]", "tables"), ("infer", "refuse")),
 }
 
 
@@ -57,9 +57,10 @@ def p_makemeta(ctx):
                            sample=(st != PROVED or name.startswith(("make_metadata[labels=text,index=list].schema.", "dtypes.column_independence",
                                                                     "metadata.roundtrip_dtype[datetime64[us, Europe/Paris]"))))
             if st == REFUTED:
-                cheap = name.startswith(("metadata.", "get_column_metadata.", "dtypes.override_is_honoured["))      # the table row IS the native run
+                # executed table rows ARE native runs; the first two of a run still get the end-to-end replay (write / read of real files)
+                cheap = M.is_executed_row(name) and (n_rep >= 2 or name.startswith(("metadata.", "get_column_metadata.", "dtypes.override_is_honoured[")))
                 n_rep += 0 if cheap else 1
-                confirmed, text = (None, "replay skipped (more than 6 refuted obligations)") if (n_rep > 6 and not cheap) else M.replay(name, e[1])
+                confirmed, text = (None, "replay skipped (more than 6 refuted obligations)") if (n_rep > 6 and not cheap) else M.replay(name, e[1], cheap=cheap)
                 ctx.violation(name, {"function": fn, "model": e[1], "solver_output": str(e[1])[:600], "replay_result": text,
                                      "snippet": f"contracts.c17_makemeta.replay({name!r})  # runs the real functions; VIOLATED = {confirmed!r}"},
                               bool(confirmed), what=((e[4] or "")[:160] + " | " + str(text)[:240]))
